@@ -49,11 +49,103 @@ func init() {
 			if R == nil {
 				return
 			}
-			runDelivery(c, p, R, deliveryRuleOf, map[string]bool{"C04.R1": true, "C04.R2": true, "C04.R3": true, "C04.R4": true})
+			runDelivery(c, p, R, deliveryRuleOf, map[string]string{"C04.R1": "C04.R1", "C04.R2": "C04.R2", "C04.R3": "C04.R3", "C04.R4": "C04.R4"})
 			claimWordDiscipline(c, p, R, "C04.R1")
 			c.Floor("C04.R1", "claim sites", c.Stats["claim_sites"], 1)
 			c.Floor("C04.R2", "handler invocation sites", c.Stats["handler_invocation_sites"], 7)
 			c.Assume = append(c.Assume, "sync/atomic CompareAndSwap semantics; each Subscribe call allocates a fresh registration (checked under C01.R5)", "Subscribe's typing guarantees the reflective fallback only sees func kinds with 1 or 2 inputs")
+		},
+	})
+}
+
+func init() {
+	register("C05", &PropDef{
+		Explain: "Structural necessary conditions of 'a panicking handler never harms the publisher or the other handlers', decided on all paths (including panic edges and deferred calls) of PublishContext, its async goroutine, the dispatch function and its deferred closure: (R1) every invocation of the handler value happens inside the dispatch function and its panic edge is absorbed by a deferred closure of the same frame that calls recover() — a panic escaping to the publisher or the goroutine top is unreachable, so the dispatch loop continues with the next registration; (R2) the panic handler is called exactly once iff a panic was recovered and the handler is set, with (published event, registration's handler type, recover() value); (R3) on the panic edge the sequential lock is released and the wait-group Done calls are executed; (R4) the once claim word is never reset after a dispatch, so a panicking Once handler stays retired. Not decided: panics in filters, hooks or the panic handler itself.",
+		Run: func(c *Ctx) {
+			c.Rule("C05.R1", "every handler invocation is inside a recover scope of its own dispatch frame; PanicEscapes unreachable")
+			c.Rule("C05.R2", "panic handler exactly once iff recovered and set, with (event, handlerType, recovered value)")
+			c.Rule("C05.R3", "sequential lock released and wait-group counts balanced on the panic edge")
+			c.Rule("C05.R4", "the claim word is never reset after a dispatch (a panicking Once handler stays retired)")
+			p, R := busRoles(c, "C05.R1")
+			if R == nil {
+				return
+			}
+			runDelivery(c, p, R, func(k string) string {
+				if strings.Contains(k, "claim/reset") {
+					return "C05.R4"
+				}
+				return deliveryRuleOf(k)
+			}, map[string]string{"C05.R1": "C05.R1", "C05.R4": "C05.R4"})
+			runFrames(c, p, R, map[string]string{"C05.R2": "C05.R2", "C05.R3": "C05.R3", "C06.R2": "C05.R3"})
+			c.Discharge("C05.R4", "claim-word/no-reset-after-dispatch", "", "no store/CAS-back on the claim word is reachable after a dispatch")
+			c.Floor("C05.R1", "handler invocation sites", c.Stats["handler_invocation_sites"], 7)
+			c.Floor("C05.R2", "panic handler call sites", c.Stats["panic_handler_call_sites"], 1)
+			c.Assume = append(c.Assume, "recover() returns non-nil exactly when called directly by a deferred function during panicking (Go spec)", "panic(nil) is a *runtime.PanicNilError since Go 1.21")
+		},
+	})
+	register("C06", &PropDef{
+		Explain: "Structural necessary conditions of 'Wait and Shutdown return only after all asynchronous work has finished': (R1) for each go statement whose body calls Done on the bus wait group, exactly one Add(1) on that wait group happens in the publisher between the previous spawn and this one, never inside the spawned body, and no Add is left unbalanced on a path that does not spawn — this holds or fails for every schedule at once; (R2) Done is executed exactly once on every exit of the goroutine body, including the context-skip return and panic edges; (R3) Wait waits on the same wait-group field; (R4) Shutdown: the store is closed only on the arm selected by the completion of Wait, nil is returned only there, the context arm returns the context's error and closes nothing, and a Close error is returned. Not decided: real-time claims.",
+		Run: func(c *Ctx) {
+			c.Rule("C06.R1", "Add(1) exactly once in the publisher before each spawn, never in the goroutine, never unbalanced")
+			c.Rule("C06.R2", "Done exactly once on every exit of the async goroutine (return, skip, panic)")
+			c.Rule("C06.R3", "Wait() waits on the same wait-group field the publisher counts on")
+			c.Rule("C06.R4", "Shutdown typestate: close(done) after Wait; Close and nil only on the done arm; ctx arm returns ctx.Err() and closes nothing")
+			p, R := busRoles(c, "C06.R1")
+			if R == nil {
+				return
+			}
+			c.Rule("C06.R5", "no delivery can block forever on a sequential lock leaked by an earlier (panicking) delivery")
+			runFrames(c, p, R, map[string]string{"C06.R1": "C06.R1", "C06.R2": "C06.R2", "C05.R3": "C06.R5"})
+			runDelivery(c, p, R, func(k string) string {
+				if strings.Contains(k, "async-goroutine/silent-skip") {
+					return "C06.R2"
+				}
+				return deliveryRuleOf(k)
+			}, map[string]string{"C06.R2": "C06.R2"})
+			c.Floor("C06.R1", "spawn sites", c.Stats["spawn_sites"], 1)
+			c.Floor("C06.R1", "Add sites", c.Stats["wg_add_sites"], 1)
+			c.Floor("C06.R2", "Done sites", c.Stats["wg_done_sites"], 1)
+			checkWaitAndShutdown(c, p, R)
+			c.Assume = append(c.Assume, "sync.WaitGroup semantics", "handlers return (a handler that never returns keeps Wait blocked by design)")
+		},
+	})
+}
+
+func init() {
+	register("C07", &PropDef{
+		Explain: "Structural necessary conditions of 'Sequential handlers never overlap and process events in publish order': (R1) at every invocation site of the handler value, on every path on which the registration's sequential flag is set, that registration's own mutex (same base object) is held, the flag is tested on every path to an invocation, and the mutex is released only after the invocation (also on the panic edge) — with sync.Mutex semantics this gives non-overlap under every schedule; (R2) exactly-once delivery per publish (the C01.R4 automaton); (R3) necessary condition for order of Async+Sequential: the publisher must record the publish order in shared state before Publish returns (a sequencing effect other than WaitGroup.Add on the async dispatch path). R3 decides only that a mechanism is present, not that it is correct.",
+		Run: func(c *Ctx) {
+			c.Rule("C07.R1", "sequential flag set ⇒ the registration's own mutex is held at every invocation, released after it on every exit")
+			c.Rule("C07.R2", "each registration is dispatched at most once per publish and skipped only for filter/context/claim")
+			c.Rule("C07.R3", "async dispatch of a sequential registration has a publisher-side sequencing effect (necessary for publish order)")
+			p, R := busRoles(c, "C07.R1")
+			if R == nil {
+				return
+			}
+			runFrames(c, p, R, map[string]string{"C07.R1": "C07.R1", "C05.R3": "C07.R1"})
+			runDelivery(c, p, R, deliveryRuleOf, map[string]string{"C01.R4": "C07.R2", "C05.R1": "C07.R2"})
+			c.Floor("C07.R1", "handler invocation sites", c.Stats["handler_invocation_sites"], 7)
+			c.Floor("C07.R1", "sequential lock sites", c.Stats["seq_lock_sites"], 2)
+			checkAsyncSequencing(c, p, R)
+			c.Assume = append(c.Assume, "sync.Mutex provides mutual exclusion; it is not FIFO")
+		},
+	})
+	register("C08", &PropDef{
+		Explain: "Structural necessary conditions of 'cancellation, context propagation and publish hooks behave predictably', decided on all paths of PublishContext and what it inlines: (R1) on every path from the start of a delivery to a handler start there is a non-blocking poll of the publish context's Done() in that delivery whose done arm skips the invocation; for synchronous handlers the poll is in the publisher after the previous handler returned; (R2) the context handed to context-aware handler arms originates only from PublishContext's ctx parameter, possibly passed through Observability.OnPublishStart/OnHandlerStart — never context.Background()/TODO(); (R3) each of the four publish hooks, when set, is invoked exactly once on every path from entry to return with (reflect.TypeOf(event), event) (ctx hooks with the publish ctx); before-hooks precede the handler snapshot, after-hooks follow the dispatch loop, and no return separates them (so it holds with no handlers and with a cancelled context alike). Not decided: that user hooks return; what observability implementations do with the context.",
+		Run: func(c *Ctx) {
+			c.Rule("C08.R1", "context gate: a live poll of the publish context precedes every handler start in the same delivery")
+			c.Rule("C08.R2", "context provenance: handlers receive the publish ctx (through observability only)")
+			c.Rule("C08.R3", "hook automaton: each hook exactly once per publish, in its phase, with the right arguments")
+			p, R := busRoles(c, "C08.R1")
+			if R == nil {
+				return
+			}
+			runDelivery(c, p, R, deliveryRuleOf, map[string]string{"C08.R1": "C08.R1"})
+			runFrames(c, p, R, map[string]string{"C08.R3": "C08.R3"})
+			c.Floor("C08.R1", "context poll sites", c.Stats["context_poll_sites"], 1)
+			c.Floor("C08.R3", "hook call sites", c.Stats["hook_call_sites"], 4)
+			checkHandlerCtxProvenance(c, p, R)
+			c.Assume = append(c.Assume, "user hooks return", "an Observability implementation derives the context it returns from the one it is given (checked for the bundled otel implementation under C20)")
 		},
 	})
 }
